@@ -1,13 +1,6 @@
-SPECIFICATION MCSpec
+SPECIFICATION MCSpecR
 CONSTANTS PL = 2 CidLen = 1 CellId = 0 NoCrypto = {2} ExtendId = 3 MaxRelayEarly = 2 Pinned = FALSE
-          MaxOps = 0 MaxRecv = 1 MaxLen = 7 Mode = "bytes"
+          MaxOps = 3 MaxRecv = 0 MaxLen = 3 Mode = "reg"
 CONSTANTS Pkts <- MCPkts Lids <- MCLids Pfxs <- MCPfxs Tuns <- MCTuns XPkts <- MCXPkts Vias <- MCVias
           Dev = {} Ipv8Versions = {2, 3} TunOps = {}
-INVARIANT Total
-INVARIANT PrefixIsolation
-INVARIANT OnlyRegisteredIds
-INVARIANT AllListenersServed
 INVARIANT RegistryServed
-INVARIANT NothingWhenClosed
-INVARIANT TableOK
-INVARIANT TunOK
